@@ -72,6 +72,14 @@ CLAIMED = {
              "(exhaustive over {-L,0,+L}^IN for small IN); independent reference DP / brute force on the real code as the violation search.",
         design="§4 C02", technique="Coq proof (generic layered-DP optimality, butterfly = relaxation, chainback = traceback, computed free distance) "
                                    "+ extracted-model differential with tie-break-rule matching"),
+    "C04": dict(
+        text="Machine-checked proof (Coq) over all 4096 data words and all 2^24 received words: Golay24::decode (mirror ImplGolay.v) corrects "
+             "every error of weight <= 3, rejects every error of weight 4, accepts exactly the words within distance 3 of a codeword and then "
+             "returns that unique codeword's data (= the bounded-distance decoder of SpecGolay.v); encode24 is the systematic, linear, "
+             "minimum-distance-8 extended cyclic code g=0xC75 of the M17 specification; the table search never ends at LUT.end(). Model tied "
+             "to the source by regenerated constants, the dumped LUT and a differential run (exhaustive over 2^24 words in the thorough tier); "
+             "exhaustive evaluation of the statements on the compiled code as the violation search.",
+        design="§4 C04", technique="Coq proof (GF(2) linearity + sweeps over 4096 data words / 2048 syndromes / 12951 patterns) + extracted-model differential"),
 }
 
 NOT_YET = {}
